@@ -384,8 +384,9 @@ COMPONENT_COMMENT_REGEX = re.compile(rb"<!--\s+_RENDERED\s+(?P<data>[\w\-,/\x80-
 SCRIPT_NAME_REGEX = re.compile(
     rb"^(?P<comp_cls_hash>[\w\-\./\x80-\xff]+?),(?P<id>[\w]+?),(?P<js>[0-9a-f]*?),(?P<css>[0-9a-f]*?)$"
 )
-# E.g. `data-djc-id-a1b2c3`
-MAYBE_COMP_ID = r'(?: data-djc-id-\w{6}="")?'
+# E.g. `data-djc-id-a1b2c3`. A placeholder that is the root element of nested components
+# carries one such attribute per component.
+MAYBE_COMP_ID = r'(?: data-djc-id-\w{6}="")*'
 # E.g. `data-djc-css-99914b`
 MAYBE_COMP_CSS_ID = r'(?: data-djc-css-\w{6}="")?'
 
